@@ -60,6 +60,7 @@ struct FnVisitor<'a> {
     macros: Vec<Value>,
     calls: Vec<Value>,
     ifs: Vec<Value>,
+    all_stmts: Vec<Value>,
 }
 
 impl<'a, 'ast> Visit<'ast> for FnVisitor<'a> {
@@ -143,6 +144,12 @@ impl<'a, 'ast> Visit<'ast> for FnVisitor<'a> {
         self.ifs.push(json!({"span": self.lm.span(n.span()), "cond": self.lm.span(n.cond.span())}));
         visit::visit_expr_if(self, n);
     }
+    fn visit_block(&mut self, n: &'ast syn::Block) {
+        for st in &n.stmts {
+            self.all_stmts.push(json!({"span": self.lm.span(st.span())}));
+        }
+        visit::visit_block(self, n);
+    }
     // do not descend into nested items
     fn visit_item(&mut self, _n: &'ast syn::Item) {}
 }
@@ -192,7 +199,7 @@ fn sig_json(lm: &LineMap, sig: &syn::Signature) -> Value {
 }
 
 fn fn_json(lm: &LineMap, path: &str, attrs: &[syn::Attribute], vis_span: Option<Span>, sig: &syn::Signature, block: &syn::Block, whole: Span) -> Value {
-    let mut v = FnVisitor { lm, loops: vec![], closures: vec![], macros: vec![], calls: vec![], ifs: vec![] };
+    let mut v = FnVisitor { lm, loops: vec![], closures: vec![], macros: vec![], calls: vec![], ifs: vec![], all_stmts: vec![] };
     v.visit_block(block);
     let stmts: Vec<Value> = block
         .stmts
@@ -215,7 +222,7 @@ fn fn_json(lm: &LineMap, path: &str, attrs: &[syn::Attribute], vis_span: Option<
            "start_no_attrs": start_no_attrs,
            "attrs": attrs_json(lm, attrs), "sig": sig_json(lm, sig),
            "block": lm.span(block.span()), "stmts": stmts,
-           "loops": v.loops, "closures": v.closures, "macros": v.macros, "calls": v.calls, "ifs": v.ifs})
+           "loops": v.loops, "closures": v.closures, "macros": v.macros, "calls": v.calls, "ifs": v.ifs, "all_stmts": v.all_stmts})
 }
 
 fn fields_json(lm: &LineMap, fields: &syn::Fields) -> Value {
